@@ -350,4 +350,40 @@ CallOK(e) ==
      IN /\ (d = "ok" => e.outcome = "ok")
         /\ (d = "err" => e.outcome = "err")
   /\ e.outcome = "ok" => PayloadOK(e)
+---------------------------------------------------------------------------
+(* C13: purity across cache states, histories and threads *)
+
+CS == INSTANCE A5CacheSlots WITH ReflOffset <- 10, SquashOffset <- 20, SphReflOffset <- 120
+KeyRec(k) == [origin |-> k[1], idx |-> k[2], refl |-> k[3] = 1]
+SetOfSeq(s) == {s[i] : i \in 1..Len(s)}
+
+\* call A then call B on a fresh projection instance: B must equal B on a cold instance, bit for bit
+PairOK(e) ==
+  /\ e.a_ok
+  /\ e.b_after_a = e.b_cold
+  /\ Drift(LET ka == KeyRec(e.a)  kb == KeyRec(e.b)
+               ta == CS!Touched(ka, TRUE)
+               tb == CS!Touched(kb, CS!SphSlot(kb.origin, kb.idx, kb.refl) \notin ta.sph)
+           IN /\ SetOfSeq(e.face_mid) = ta.face /\ SetOfSeq(e.sph_mid) = ta.sph
+              /\ SetOfSeq(e.face_end) = ta.face \cup tb.face /\ SetOfSeq(e.sph_end) = ta.sph \cup tb.sph,
+           "memo slots filled differ from the A5Cache model")
+
+\* one call of a history replayed on real threads; th = what is known about the calling thread so far
+\* (<<>> if this is its first call), others = instance addresses of the other live threads
+ProjStepOK(e, th, others) ==
+  /\ e.result = e.cold                                        \* same answer as a cold instance
+  /\ e.instance = e.instance_after
+  /\ e.instance \notin others                                 \* every thread has its own instance
+  /\ th # <<>> => /\ th.inst = e.instance
+                  /\ th.face = SetOfSeq(e.face_before)         \* nobody else touched this thread's cache
+                  /\ th.sph = SetOfSeq(e.sph_before)
+  /\ th = <<>> => e.face_before = <<>> /\ e.sph_before = <<>>  \* a fresh thread starts cold
+  /\ Drift(LET k == KeyRec(e.key)
+               tch == CS!Touched(k, CS!SphSlot(k.origin, k.idx, k.refl) \notin SetOfSeq(e.sph_before))
+           IN /\ SetOfSeq(e.face_after) = SetOfSeq(e.face_before) \cup tch.face
+              /\ SetOfSeq(e.sph_after) = SetOfSeq(e.sph_before) \cup tch.sph,
+           "memo slots filled differ from the A5Cache model")
+
+PurityOK(e) == Len(e.results) >= 1 /\ \A i \in 1..Len(e.results) : e.results[i] = e.results[1]
+InstancesOK(e) == NoRepeats(e.addresses)
 =============================================================================
